@@ -11,7 +11,7 @@ from ..runner import Outcome, fail
 ID = 'C05'
 LEVEL = 'exploration'
 RULE = ('Rule-based state machine over encrypted repositories (both ciphers, all key sizes and hash families; init, add-key of '
-        'all kinds, snapshot with notes, delete, clean, concurrent pairs). Observer view = every object name and every byte '
+        'all kinds, snapshot with notes, occasional bulk snapshots of >1000 chunks, delete, clean, concurrent pairs; fresh Repository objects and long-lived sessions incl. the object that ran init). Observer view = every object name and every byte '
         'ever uploaded (backend history, so overwritten/deleted objects count), the emitted key files and the stdout of '
         'init/add-key. After every step the new part of the view is scanned for needles in raw, hex (both cases), base64 '
         '(standard and url-safe, three alignments) and JSON-escaped form: 24-byte slices of PRNG file content at several '
@@ -30,7 +30,7 @@ PATHS = ['secretdirAlpha/payrollQ3.xlsx', 'secretdirAlpha/nested-Omega/diary.txt
 
 def budget(tier):
     if tier == 'quick':
-        return {'shards': 16, 'examples': 20, 'steps': 14, 'wall': 240}
+        return {'shards': 16, 'examples': 10, 'steps': 14, 'wall': 240}
     return {'shards': 16, 'examples': 700, 'steps': 24, 'wall': 2400}
 
 
@@ -122,7 +122,9 @@ def invariant(sim, objs):
                 if len(body) >= 24:
                     P.add('file-content', body[off:off + 24])
         if s.location in objs:
-            for d in rd.read_snapshot(s.location, objs[s.location])['chunks']:
+            table = rd.read_snapshot(s.location, objs[s.location])['chunks']
+            step = max(1, len(table) // 24)         # bulk snapshots: a sample of the digests keeps the scan affordable
+            for d in table[::step]:
                 P.add('chunk-digest', d)
     # config: algorithm settings only
     cfg = refimpl.loads(objs['config'])
@@ -259,7 +261,7 @@ def outcome_of(sim, case):
 def machine(tier, ctx):
     import sys
     return hist.make_machine(sys.modules[__name__], tier, ctx, checks=CHECKS, extra_invariant=invariant, cfg_strategy=config(),
-                             weights=dict(snapshot=5, add_user=2, delete=2, clean=1, restore=0, list=0, concurrent=1))
+                             weights=dict(snapshot=5, add_user=2, delete=2, clean=1, restore=0, list=0, concurrent=1, bulk=1))
 
 
 def run_case(case):
